@@ -66,6 +66,9 @@ func convCompFuncV1ToV2(cf *ugo.CompiledFunction, opWidth []int) error {
 			continue
 		}
 
+		if int(op) >= len(opWidth) {
+			return fmt.Errorf("unknown opcode %d at %d", op, i)
+		}
 		w := opWidth[op]
 		i += 1 + w
 	}
@@ -84,7 +87,13 @@ func convCompFuncV1ToV2(cf *ugo.CompiledFunction, opWidth []int) error {
 			break
 		}
 		op := cf.Instructions[i]
+		if int(op) >= len(opWidth) {
+			return fmt.Errorf("unknown opcode %d at %d", op, i)
+		}
 		w := opWidth[op]
+		if i+1+w > len(cf.Instructions) {
+			return fmt.Errorf("truncated instruction at %d", i)
+		}
 		switch op {
 		case opv1.OpJump, opv1.OpJumpFalsy, opv1.OpAndJump, opv1.OpOrJump:
 			n += 2
